@@ -58,6 +58,8 @@ P0 == [cfg    |-> [seq |-> FALSE, delay |-> 0, retry |-> FALSE, rc |-> FALSE],
        act    |-> <<>>,    \* active instance -> [k, ep]
        mustDie|-> {},      \* instances that must be cancelled in the next snapshot
        retry  |-> <<>>,    \* key -> deadline of the owed re-run (-1: not yet fixed)
+       want   |-> {},      \* keys requested (SetKey / SyncKeys) and not removed since: they must stay present
+                           \* whatever timers fire meanwhile (judged in every mode; not with reference counting)
        bad    |-> {}]
 
 PInit  == ps = P0
@@ -176,10 +178,20 @@ Api07(s, e) ==
                    !.mustDie = IF e.c = 0 THEN DOMAIN s.act ELSE @]
     ELSE [s EXCEPT !.retry = Drop(@, Restarts(e))]
 
+\* C06 "kept for good if it is requested again": order-insensitive part of the key-set claim, judged
+\* also when timer callbacks and API calls interleave (a SetKey landing while a fired removal
+\* timer's callback is pending must still keep the key)
+Want(s, e) ==
+    IF s.cfg.rc THEN s
+    ELSE CASE e.op = "setkey"    -> [s EXCEPT !.want = @ \cup {e.k}]
+           [] e.op = "removekey" -> [s EXCEPT !.want = @ \ {e.k}]
+           [] e.op = "synckeys"  -> [s EXCEPT !.want = e.ks]
+           [] OTHER              -> s
+
 Api(s, e) ==
     IF s.off THEN s
     ELSE LET s1 == IF Judge06(s) THEN Model06(s, e) ELSE s
-         IN [Api07(s1, e) EXCEPT !.newTok = <<>>]
+         IN [Api07(Want(s1, e), e) EXCEPT !.newTok = <<>>]
 
 \* observed after a step: key set, instances inside the function, those with a live context
 Snap(s, keys, active, live) ==
@@ -187,7 +199,8 @@ Snap(s, keys, active, live) ==
     ELSE LET gone == s.kset \ keys
              s1 == Flag(s, ~\E i \in DOMAIN s.act : i \in live /\ s.act[i].k \in gone, "LiveAfterRemove")
              s2 == Flag(s1, s.mustDie \cap live = {}, "LiveAfterClear")
-             s3 == Flag(s2, active = DOMAIN s.act, "Harness")
+             s3a == Flag(s2, active = DOMAIN s.act, "Harness")
+             s3 == Flag(s3a, s.want \subseteq keys, "WantedKeyLost")
          IN [s3 EXCEPT !.kset = keys, !.mustDie = {}, !.retry = Drop(@, gone),
                        !.epoch = [k \in gone |-> Ep(s, k) + 1] @@ @]
 
@@ -234,7 +247,7 @@ Quiet(s) ==
 Teardown(s) == [s EXCEPT !.off = TRUE]
 
 -----------------------------------------------------------------------------
-C06Names == {"SetKeyResult", "RemoveKeyResult", "SyncKeysResult", "GetKeyResult", "GetKeysResult",
+C06Names == {"WantedKeyLost", "SetKeyResult", "RemoveKeyResult", "SyncKeysResult", "GetKeyResult", "GetKeysResult",
              "GetKeysDataResult", "AddKeyRefResult", "RcRemoveKeyResult"}
 C07Names == {"Overlap", "LiveAfterRemove", "LiveAfterClear", "StartedAfterRemove", "StartedAfterClear", "RetryLost"}
 
